@@ -55,6 +55,7 @@ func main() {
 	}
 	os.Remove(*out)
 	t0 := time.Now()
+	core.AnchorTable = filepath.Join(*verif, "tables", "anchors.json")
 	p, err := core.Load(*repo)
 	if err != nil {
 		// A tree that does not load cannot be judged; this is a failed check.
@@ -78,6 +79,14 @@ func main() {
 			runMutants(r, *verif, *repo, *prop)
 		}
 	}()
+	for _, n := range core.AnchorNotes {
+		r.Note("%s", n)
+	}
+	if os.Getenv("J5CHECK_WRITE_ANCHORS") != "" {
+		if err := core.WriteAnchors(); err != nil {
+			fmt.Fprintln(os.Stderr, "anchors:", err)
+		}
+	}
 	os.Exit(r.Finish(*out))
 }
 
